@@ -8,8 +8,9 @@ TC=$(ls -d ~/.rustup/toolchains/nightly-x86_64-unknown-linux-gnu)
 BIN=$TC/lib/rustlib/x86_64-unknown-linux-gnu/bin
 mkdir -p /tmp/covsim /tmp/covrun /tmp/covprof
 rsync -a --delete --exclude target /verif/sim/ /tmp/covsim/
-cd /tmp/covsim && CARGO_NET_OFFLINE=true RUSTFLAGS="-C instrument-coverage" cargo +nightly build --release --offline >/tmp/covsim/build.log 2>&1 || { echo build failed; exit 2; }
-cp /verif/known_findings.json /tmp/covrun/; rm -f /tmp/covprof/*
+# (instrumented proc-macros and build scripts write a profile when they run: keep those out of /repo)
+cd /tmp/covsim && LLVM_PROFILE_FILE=/tmp/covprof/build-%p-%m.profraw CARGO_NET_OFFLINE=true RUSTFLAGS="-C instrument-coverage" cargo +nightly build --release --offline >/tmp/covsim/build.log 2>&1 || { echo build failed; exit 2; }
+cp /verif/known_findings.json /tmp/covrun/; rm -f /tmp/covprof/*; find /repo -name '*.profraw' -not -path '*/target/*' -delete
 for p in C01 C02 C03 C05 C06 C07 C08 C09 C10 C11 C12 C13 C14 C15 C16 C17 C18 C19 C20; do
   LLVM_PROFILE_FILE="/tmp/covprof/$p-%p.profraw" ./target/release/cwsim check $p quick --dir /tmp/covrun --runs $RUNS --no-sweep > /tmp/covrun/$p.log 2>&1
 done
